@@ -11,6 +11,7 @@
 (*    QB r .. [Send r]     .. QA r      command of request r -> writeChannel*)
 (*    PU r .. [PushSend r] .. PD r      flush request of r -> flushChannel *)
 (*    FL   .. [Reply]      .. DN r      reply to the requester             *)
+(*         [Recv]       .. TK        the loop takes a request from the channel*)
 (*    EN r .. [ReadLen r]  .. EA r | PU r   len(flushChannel) read by r    *)
 (* The loop's events (TK take, TW timer, CT n count, SY fsync done, PR r   *)
 (* primary write of writer w's file, FL flushed) are taken in log order.    *)
@@ -83,9 +84,12 @@ RT == /\ Ev("RT")
 
 \* ---- loop events ----
 Resting == lpc = "select" \/ (lreq = "" /\ (lpc \in {"synced", "flushed0"} \/ (~Monitor /\ lpc = "counted")))    \* a timer flush has no 'flushed' point
-TK == /\ Ev("TK") /\ Resting /\ fch # <<>>
-      /\ lreq' = Head(fch) /\ fch' = Tail(fch) /\ lpc' = "took" /\ lcur' = <<>> /\ Adv
-      /\ UNCHANGED <<entered, lenSeen, sendOpen, sent, wch, pushOpen, pushed, synced, visible, replies, returned, early, earlyBad>>
+\* the loop's receive from the flush channel happens BEFORE its hook point: internal step Recv, then the event TK
+Recv == /\ Resting /\ fch # <<>>
+        /\ lreq' = Head(fch) /\ fch' = Tail(fch) /\ lpc' = "taking" /\ lcur' = <<>>
+        /\ UNCHANGED <<i, entered, lenSeen, sendOpen, sent, wch, pushOpen, pushed, synced, visible, replies, returned, early, earlyBad>>
+TK == /\ Ev("TK") /\ lpc = "taking" /\ lpc' = "took" /\ Adv
+      /\ UNCHANGED <<entered, lenSeen, sendOpen, sent, wch, pushOpen, pushed, fch, lreq, lcur, synced, visible, replies, returned, early, earlyBad>>
 TW == /\ Ev("TW") /\ Resting /\ lreq' = "" /\ lpc' = "took" /\ lcur' = <<>> /\ Adv
       /\ UNCHANGED <<entered, lenSeen, sendOpen, sent, wch, pushOpen, pushed, fch, synced, visible, replies, returned, early, earlyBad>>
 CT == /\ Ev("CT") /\ lpc = "took" /\ Len(wch) >= Trace[i].n
@@ -104,7 +108,7 @@ FL == /\ Ev("FL") /\ (lpc \in {"synced", "flushed0"} \/ (~Monitor /\ lpc = "coun
       /\ UNCHANGED <<entered, lenSeen, sendOpen, sent, wch, pushOpen, pushed, fch, lreq, lcur, synced, visible, replies, returned, early, earlyBad>>
 
 Next == \/ QB \/ QA \/ EN \/ EA \/ PU \/ PD \/ DN \/ RT \/ TK \/ TW \/ CT \/ SY \/ PR \/ FL
-        \/ Reply \/ (\E r \in Reqs : Send(r) \/ PushSend(r) \/ ReadLen(r))
+        \/ Reply \/ Recv \/ (\E r \in Reqs : Send(r) \/ PushSend(r) \/ ReadLen(r))
 Spec == Init /\ [][Next]_vars
 
 Done == i = Len(Trace) + 1
